@@ -291,7 +291,7 @@ const fhEpoch = int64(1_000_000_000) // logical time 0 = 2001-09-09; every expli
 
 type fhAttempt struct {
 	task  int
-	fp    string // hex of the stream the code hashes (base names + contents)
+	fp    string // hex of the stream the code hashes (names relative to the task dir + contents)
 	ideal string // relative paths + contents
 	time  int64
 	ok    bool
@@ -493,7 +493,11 @@ func (r *fhRun) caseLine(src, gen [][][]int) string {
 	var sb strings.Builder
 	fmt.Fprintf(&sb, "finger.hist %d", len(r.paths))
 	for _, p := range r.paths {
-		fmt.Fprintf(&sb, " %s %d", hx(filepath.Base(p)), r.dirOf(p)+1)
+		fmt.Fprintf(&sb, " %s %d", hx(p), r.dirOf(p)+1) // the slash path relative to the project root
+	}
+	fmt.Fprintf(&sb, " %d", len(r.dirs))
+	for _, d := range r.dirs {
+		fmt.Fprintf(&sb, " %d", len(d)+1) // length of the prefix "<dir>/" the name of a source of a task in <dir> loses
 	}
 	fmt.Fprintf(&sb, " %d", len(r.d.Tasks))
 	pats := func(gs []fhGlob, ms [][]int) {
@@ -638,14 +642,15 @@ func xxhHex(b []byte) string {
 	return fmt.Sprintf("%x%x", s.Hi, s.Lo)
 }
 
-// sourcesNow: the real Globs on the real tree; stream = base name + content of each (what
-// the model's `stream` is); ideal = relative path + content.
+// sourcesNow: the real Globs on the real tree; stream = name + content of each, the name being
+// the slash path relative to the task directory (what the model's `stream (nameOf pr t)` is);
+// ideal = path relative to the project root + content, delimited.
 func (r *fhRun) sourcesNow(t fhTask) (files []string, stream []byte, ideal string) {
 	ms, _ := realGlobs(r.taskDirAbs(t), t.Sources)
 	var ib strings.Builder
 	for _, m := range ms {
 		b, _ := os.ReadFile(m)
-		stream = append(stream, []byte(filepath.Base(m))...)
+		stream = append(stream, []byte(relTo(r.taskDirAbs(t), m))...)
 		stream = append(stream, b...)
 		fmt.Fprintf(&ib, "%s\x00%s\x00", relTo(r.root, m), b)
 	}
@@ -1048,7 +1053,9 @@ func fhNorm(s string) string {
 	return sb.String()
 }
 
-// multiset of (base name, content) of an ideal fingerprint
+// multiset of (base name, content) of an ideal fingerprint.  A change that keeps this multiset (a file
+// moved to another directory) went unnoticed while the checksum hashed filepath.Base; the monitor
+// keeps classifying it (samebases=1) so that a regression is recognised as that defect.
 func fhBaseBag(ideal string) string {
 	parts := strings.Split(ideal, "\x00")
 	var bag []string
